@@ -10,9 +10,7 @@
       factor_quartic_inner   common.rs  pub fn factor_quartic_inner
       solve_quartic_inner    (private; hook verif_solve_quartic_inner)
       solve_quartic          common.rs  fn solve_quartic
-      solve_itp              common.rs  fn solve_itp  (loop with explicit fuel; [None] =
-                             fuel exhausted, or [1u64 << nmax] overflows (nmax >= 64: a panic
-                             with overflow checks on)) *)
+      solve_itp              common.rs  fn solve_itp  (loop with explicit fuel; [None] = fuel exhausted) *)
 
 From Coq Require Import ZArith QArith List Bool Floats.
 From KV Require Import Scalar.
@@ -82,6 +80,9 @@ Definition cubic_main (c0 c1 c2 : T) : list T :=
   let d2 := c2 * c0 - c1 * c1 in
   let d := sv_4 * d0 * d2 - d1 * d1 in
   let de := ffma (sv_m2 * c2) d0 d1 in
+  (* repair commit fd4a7ab: in exact arithmetic d >= 0 implies d0 <= 0; near a triple root rounding
+     can leave a tiny positive d0 whose square root below would be NaN *)
+  let d0 := if d >=? f0 then fmin d0 f0 else d0 in
   if d <? f0 then
     let sq := fsqrt (sv_mquarter * d) in
     let r := sv_mhalf * de in
@@ -419,12 +420,17 @@ Definition itp_point (a b k1 ya yb scaled_epsilon : T) : T :=
   let xt := if delta <=? fabs (x1_2 - xf) then xf + fcopysign delta sigma else x1_2 in
   if fabs (xt - x1_2) <=? r then xt else x1_2 - fcopysign r sigma.
 
-(* [while b - a > 2.0 * epsilon]; [fuel] bounds the number of iterations; [None] = exhausted *)
+(* [while b - a > 2.0 * epsilon]; [fuel] bounds the number of loop entries (each one ticks the work
+   counter); [None] = exhausted.  Repair commit 75101ed: the loop is left when the midpoint is not
+   strictly inside the bracket (a and b adjacent floats). *)
 Fixpoint itp_loop (fuel : nat) (f : T -> T) (epsilon k1 : T) (a b ya yb scaled_epsilon : T) : option T :=
   if b - a >? f2 * epsilon then
     match fuel with
     | O => None
     | S fuel' =>
+        let x1_2 := fhalf * (a + b) in
+        if (x1_2 <=? a) || (x1_2 >=? b) then Some (fhalf * (a + b))     (* break *)
+        else
         let xitp := itp_point a b k1 ya yb scaled_epsilon in
         let yitp := f xitp in
         if yitp >? f0 then itp_loop fuel' f epsilon k1 a xitp ya yitp (scaled_epsilon * fhalf)
@@ -437,11 +443,11 @@ Fixpoint itp_loop (fuel : nat) (f : T -> T) (epsilon k1 : T) (a b ya yb scaled_e
 Definition itp_n1_2 (a b epsilon : T) : Z :=
   fto_usize (fmax (fceil (sv_log2 ((b - a) / epsilon)) - f1) f0).
 
+(* nmax = n0.saturating_add(n1_2); scaled_epsilon = epsilon * 2^min(nmax, 1023), the power of two
+   built exactly (f64::from_bits) -- repair commit 75101ed, before it [(1u64 << nmax) as f64] *)
 Definition solve_itp (fuel : nat) (f : T -> T) (a b epsilon : T) (n0 : Z) (k1 ya yb : T) : option T :=
-  let nmax := (n0 + itp_n1_2 a b epsilon)%Z in
-  if (64 <=? nmax)%Z then None            (* 1u64 << nmax overflows *)
-  else
-    let scaled_epsilon := epsilon * fpowi f2 nmax in    (* (1u64 << nmax) as f64 *)
-    itp_loop fuel f epsilon k1 a b ya yb scaled_epsilon.
+  let nmax := Z.min (n0 + itp_n1_2 a b epsilon) (2 ^ 64 - 1) in
+  let scaled_epsilon := epsilon * fpowi f2 (Z.min nmax 1023) in
+  itp_loop fuel f epsilon k1 a b ya yb scaled_epsilon.
 
 End Solvers.
